@@ -36,6 +36,8 @@ RULES = {
     "fixes.fix_if_assign": 3,
     "fixes.swap_if_else": 4,
     "fixes.delete_unreachable_code": 5,
+    "fixes.early_return": 6,
+    "fixes.early_continue": 7,
 }
 
 B = lambda b: ("B", b)  # noqa
@@ -209,7 +211,51 @@ def fam_swap(tier):
     return [p for p in out if M.well_formed(p)]
 
 
-FAMILIES = {"fixes.swap_if_else": fam_swap, "fixes.fix_if_return": fam_if_return_assign, "fixes.fix_if_assign": fam_if_return_assign}
+def fam_early_return(tier):
+    out = []
+    A = lambda x, e=("V", ("O", True, 1)): ("asg", x, e)  # noqa
+    leaves = [[A(0)], [EV1, A(0, ("T", C2))], [A(0, ("X", 1))], [A(1)], [EV1], [A(0), EV1], [RET]]
+    inner = [("if", C2, b, e) for b in leaves[:4] for e in [[]] + leaves[:3]]
+    for t in (C1, KT):
+        for b in leaves + [[i] for i in inner[:6]] + [[EV2, inner[1]]]:
+            for e in [[]] + leaves + [[i] for i in inner[:8]]:
+                for ret in (("ret", ("X", 0)), ("ret", ("X", 1)), ("ret", ("V", B(True)))):
+                    out.append([("if", t, b, e), ret])
+                out.append([EV3, ("if", t, b, e), ("ret", ("X", 0))])
+                out.append([("if", t, b, e), ("ret", ("X", 0)), EV3])
+                out.append([("if", C3, [("if", t, b, e), ("ret", ("X", 0))], [])])
+    return [p for p in out if M.well_formed(p)]
+
+
+def fam_early_continue(tier):
+    out = []
+    long6 = [EV1, EV2, EV3, ASG, EV1, EV2]
+    long5 = long6[:5]
+    nest = ("if", C2, [EV1, EV2], [EV3])
+    bodies = [[EV1], [EV1, EV2, EV3], long5, long6, long6 + [("cont",)], [nest, EV1, EV2, EV3], [nest, nest, EV1],
+              [("for", IK2, [EV1, EV2], []), EV1, EV2, EV3, EV1], [("if", C2, long5, [])]]
+    elses = [[], [EV1], [EV1, EV2], [EV1, EV2, EV3], [("if", C3, [EV1], [EV1, EV2, EV3])], [("if", C3, [EV1], [EV2])],
+             [("while", C3, [("if", C2, [EV1], [EV1, EV2, EV3])], [])]]
+    for t in (C1, ("N", C1), KT):
+        for b in bodies:
+            for e in elses:
+                last = ("if", t, b, e)
+                for it in (IK2, IU1):
+                    out.append([("for", it, [last], [])])
+                    out.append([("for", it, [EV3, last], [EV1]), EV2])
+                out.append([("for", IK2, [last, EV3], [])])          # not the last statement
+                out.append([("while", C3, [last], [])])               # not a for loop
+                out.append([("if", C3, [("for", IU1, [EV2, last], [])], [])])
+    # nested loops with two sites
+    last = ("if", C1, long6, [])
+    out.append([("for", IK2, [("for", IU1, [last], []), ("if", C2, long6, [])], [])])
+    out.append([("for", IK2, [("if", C2, [("for", IU1, [last], [])] + long5, [])], [])])
+    out.append([("for", IK2, [("if", C2, [EV1], [("for", IU1, [last], []), EV1, EV2])], [])])
+    return [p for p in out if M.well_formed(p)]
+
+
+FAMILIES = {"fixes.swap_if_else": fam_swap, "fixes.early_return": fam_early_return,
+            "fixes.early_continue": fam_early_continue, "fixes.fix_if_return": fam_if_return_assign, "fixes.fix_if_assign": fam_if_return_assign}
 
 
 def rand_test(rnd, known=0.3):
